@@ -20,8 +20,8 @@ CHECKS = [
      "note": "Trusted: Kani/CBMC/z3, Verus, extractor, ALU oracle, BigUint axioms, arena shims. Unverified: aggregates/transmute/control flow in const_eval.rs, CCP. Known finding D3."},
     {"id": "C07", "engine": "kani", "level": "proof", "design_ref": "DESIGN.md 2/C07, 0A.1, 0A.3",
      "technique": "Kani transfer-function soundness harness per opcode on the verbatim rule table of constant_propagate (callee contracts via -Z stubbing, uninterpreted hard arithmetic) and on the lifted retain_mut closure of const_indexing_aggregates_function against a tracking invariant; contracts on the decision fragments of remove_redundant_ops / remove_sequential_jumps",
-     "text": "Constant propagation: one iteration of the optimisation loop is reassembled from verbatim fragments and, per opcode, proved to leave the VM outcome (registers, $of, $err, panic) unchanged for every register file, every abstract state and every $flag, and to keep only true facts. Register file of 2 virtual + 5 named registers. Constant-indexed aggregates: every modelled op (ADD, ADDI, MOVI, LW, SW, MOVE, organizational ops; MUL in the thorough tier) preserves the invariant that what the tables say about a register is true of the machine, a rewritten LW/SW accesses the same address and a removed MOVE is a no-op (found and fixed D19). Redundant-op / sequential-jump removal: an op classified removable changes no register and no memory; a jump reported dead is a non-call jump to the next line.",
-     "note": "Assumed (not discharged): contracts of KnownValues::remove_reg_and_dependents and ResetKnown::apply; has_side_effect's contract is discharged in the thorough tier only. Unverified: dce / reachability, simplify_cfg, remove_redundant_moves, the next-op flag guard of remove_redundant_ops, LoadDataId and catch-all arms of const_indexing_aggregates_function."},
+     "text": "Constant propagation: one iteration of the optimisation loop is reassembled from verbatim fragments and, per opcode, proved to leave the VM outcome (registers, $of, $err, panic) unchanged for every register file, every abstract state and every $flag, and to keep only true facts. Register file of 2 virtual + 5 named registers. Constant-indexed aggregates: every modelled op (ADD, ADDI, MOVI, LW, SW, MOVE, organizational ops; MUL in the thorough tier) preserves the invariant that what the tables say about a register is true of the machine, a rewritten LW/SW accesses the same address and a removed MOVE is a no-op (found and fixed D19). Redundant-op / sequential-jump removal: an op classified removable changes no register and no memory; a jump reported dead is a non-call jump to the next line; remove_redundant_ops as a whole returns an equivalent block for every 3-instruction block of the model (bounded; found and fixed D20, the flag guard).",
+     "note": "Assumed (not discharged): contracts of KnownValues::remove_reg_and_dependents and ResetKnown::apply; has_side_effect's contract is discharged in the thorough tier only. Unverified: dce / reachability, simplify_cfg, remove_redundant_moves, LoadDataId and catch-all arms of const_indexing_aggregates_function."},
     {"id": "C12", "engine": "kani", "level": "proof", "design_ref": "DESIGN.md 2/C12, 0A.1",
      "technique": "Kani full-domain harness on the extracted add_to_b256 with the real uint crate",
      "text": "Partial: the slot-key arithmetic (consecutive slots are base, base+1, ...) is proved for all 256-bit keys and 64-bit offsets whose sum fits; the overflow panic is known finding D9. Key strings, value layout and the Sway read side are unverified.",
